@@ -90,7 +90,7 @@ static int running_pid;                  /* pid whose code is executing, 0 = dis
 static void crash_handler(int sig)
 {
     if (out != NULL) { fprintf(out, "{\"e\":\"Crash\",\"sig\":%d}\n", sig); fflush(out); }
-    _exit(3);
+    _exit(sig == SIGALRM ? 4 : 3);
 }
 
 static int pid_of(const void *pp)
@@ -758,7 +758,7 @@ int main(int argc, char **argv)
     FILE *in = fopen(argv[2], "r");
     if (in == NULL) return 2;
     FILE *f = fopen(argv[3], "w"); if (f == NULL) return 2; fclose(f);
-    int crashes = 0, n = 0;
+    int crashes = 0, n = 0, hangs = 0;
     while (read_program(in)) {
         fflush(NULL);
         pid_t pid = fork();
@@ -767,6 +767,7 @@ int main(int argc, char **argv)
             if (out == NULL) _exit(2);
             signal(SIGABRT, crash_handler); signal(SIGSEGV, crash_handler);
             signal(SIGFPE, crash_handler);  signal(SIGBUS, crash_handler);
+            signal(SIGALRM, crash_handler); alarm(P.id >= 900000 ? 120 : 10);      /* stuck inside one library call (not a runaway program): a crash */
             fprintf(stderr, "#HIST %d\n", n); fflush(stderr);
             run_program();
             fclose(out);
@@ -775,6 +776,7 @@ int main(int argc, char **argv)
         int st = 0;
         waitpid(pid, &st, 0);
         if (st != 0) crashes++;
+        if (WIFEXITED(st) && WEXITSTATUS(st) == 4 && ++hangs >= 3) break;   /* three programs stuck inside the library: enough said */
         n++;
     }
     fclose(in);
